@@ -1172,6 +1172,135 @@ func (g *c09Directed) history(phases int) []c09Op {
 	return g.ops
 }
 
+
+// ---- books whose per-peer cap binds -------------------------------------------------
+// Judged by the weak monitor only (soundness + the bound cap + 2k, see Spec.v).  The class the
+// round-3 adversary pointed at is generated on purpose: a SetAddrs/AddAddrs batch that MIXES
+// overrides of connected-class entries with new finite addresses (pstoreds counts the peer's
+// unconnected entries once per batch, pstoremem per address), batches larger than the cap,
+// connected -> finite moves followed by insertions.
+
+func c09CapCorpus() []c09Corpus {
+	C := c09TTLConn
+	obs := func(p int64) []c09Op { return []c09Op{cAddrs(p), cRec(p), cPeers()} }
+	cat := func(parts ...[]c09Op) []c09Op {
+		var l []c09Op
+		for _, p := range parts {
+			l = append(l, p...)
+		}
+		return l
+	}
+	return []c09Corpus{
+		{"caps.mixed_batch.set_overrides_connected_plus_new", cat([]c09Op{cAdd(1, C, 1), cSet(1, 120, 1, 2)}, obs(1), []c09Op{cAdv(1), cAdd(1, 900, 3)}, obs(1), []c09Op{cGC()}, obs(1))},
+		{"caps.mixed_batch.two_connected_two_new", cat([]c09Op{cAdd(1, C, 1, 2), cSet(1, 900, 1, 2, 3, 4)}, obs(1), []c09Op{cAdv(1), cAdd(1, 900, 5)}, obs(1), []c09Op{cAdv(900), cGC()}, obs(1))},
+		{"caps.batch_larger_than_cap", cat([]c09Op{cAdd(1, 120, 1, 2, 3)}, obs(1), []c09Op{cAdv(1), cAdd(1, 900, 4, 5)}, obs(1), []c09Op{cGC()}, obs(1))},
+		{"caps.never_connected_one_by_one", cat([]c09Op{cAdd(1, 120, 1), cAdv(1), cAdd(1, 900, 2), cAdv(1), cSet(1, 3600, 3), cAdv(1), cCon(1, 1, 900, 4)}, obs(1), []c09Op{cAdv(1), cAdd(1, 120, 5)}, obs(1), []c09Op{cGC()}, obs(1))},
+		{"caps.update_connected_to_finite_then_insert", cat([]c09Op{cAdd(1, C, 1, 2, 3), cUpd(1, C, 900)}, obs(1), []c09Op{cAdv(1), cAdd(1, 120, 4)}, obs(1), []c09Op{cAdv(1), cAdd(1, 120, 5)}, obs(1), []c09Op{cGC()}, obs(1))},
+	}
+}
+
+func c09CapHistory(r *verifh.Rand, nP, nA int64, out *verifh.Out) []c09Op {
+	var ops []c09Op
+	seq := map[int64]int64{}
+	conn := map[c09ShadowKey]bool{} // shadow: which entries were last written with a connected class
+	fin := []int64{120, 900, 3600}
+	pickSome := func(n int) []int64 {
+		perm := make([]int64, nA)
+		for i := range perm {
+			perm[i] = int64(i + 1)
+		}
+		for i := len(perm) - 1; i > 0; i-- {
+			j := r.Intn(i + 1)
+			perm[i], perm[j] = perm[j], perm[i]
+		}
+		if n > len(perm) {
+			n = len(perm)
+		}
+		return perm[:n]
+	}
+	steps := 4 + r.Intn(8)
+	for i := 0; i < steps; i++ {
+		p := 1 + int64(r.Intn(int(nP)))
+		switch r.Intn(8) {
+		case 0, 1: // connected batch
+			as := pickSome(1 + r.Intn(3))
+			t := c09TTLConn
+			if r.Chance(1, 4) {
+				t = c09TTLPerm
+			}
+			ops = append(ops, cAdd(p, t, as...))
+			for _, a := range as {
+				conn[c09ShadowKey{p, a}] = true
+			}
+		case 2, 3: // finite batch over (some of) the connected entries AND new addresses
+			var mine []int64
+			for a := int64(1); a <= nA; a++ {
+				if conn[c09ShadowKey{p, a}] {
+					mine = append(mine, a)
+				}
+			}
+			as := pickSome(1 + r.Intn(4))
+			if len(mine) > 0 {
+				seen := map[int64]bool{}
+				var l []int64
+				for _, a := range append(append([]int64{}, mine...), as...) {
+					if !seen[a] {
+						seen[a] = true
+						l = append(l, a)
+					}
+				}
+				if r.Bool() { // new addresses first
+					for i, j := 0, len(l)-1; i < j; i, j = i+1, j-1 {
+						l[i], l[j] = l[j], l[i]
+					}
+				}
+				as = l
+				if len(as) > len(mine) {
+					out.Cover("caps.mixed_batch_connected_overrides_plus_new")
+				}
+			}
+			t := fin[r.Intn(len(fin))]
+			if r.Chance(2, 3) {
+				ops = append(ops, cSet(p, t, as...))
+				for _, a := range as {
+					conn[c09ShadowKey{p, a}] = false
+				}
+			} else {
+				ops = append(ops, cAdd(p, t, as...))
+			}
+		case 4: // single insertions, one second apart (no expiry ties)
+			for _, a := range pickSome(1 + r.Intn(3)) {
+				ops = append(ops, cAdv(1), cAdd(p, fin[r.Intn(len(fin))], a))
+			}
+		case 5: // class moves
+			if r.Bool() {
+				ops = append(ops, cUpd(p, c09TTLConn, fin[r.Intn(len(fin))]))
+				for a := int64(1); a <= nA; a++ {
+					delete(conn, c09ShadowKey{p, a})
+				}
+			} else {
+				ops = append(ops, cUpd(p, fin[r.Intn(len(fin))], c09TTLConn))
+			}
+		case 6:
+			seq[p]++
+			ops = append(ops, cCon(p, seq[p], fin[r.Intn(len(fin))], pickSome(1+r.Intn(3))...))
+		default:
+			ops = append(ops, cAdv([]int64{1, 60, 120, 900}[r.Intn(4)]))
+			if r.Bool() {
+				ops = append(ops, cGC())
+			}
+		}
+		ops = append(ops, cAddrs(p))
+		if r.Chance(1, 3) {
+			ops = append(ops, cPeers(), cRec(p))
+		}
+	}
+	for p := int64(1); p <= nP; p++ {
+		ops = append(ops, cAddrs(p))
+	}
+	return append(ops, cGC(), cPeers())
+}
+
 func TestVerifC09(t *testing.T) {
 	out, err := verifh.Open()
 	if err != nil {
@@ -1279,6 +1408,45 @@ func TestVerifC09(t *testing.T) {
 				out.Cover("memds.directed.different_answers")
 			}
 		}
+	}
+
+	// 2c. per-peer caps that bind: fixed cases and mixed-batch histories, on pstoremem and on pstoreds
+	// (cache off / on) with the same cap; how often the two books end up answering differently is
+	// counted (the weak monitor judges each of them, not their agreement: see Spec.v)
+	capRun := func(name string, ops []c09Op, pc, nP, nA int64) {
+		var memLine []int64
+		for _, cfg := range []c09Cfg{{store: 0, pcap: pc}, {store: 1, cache: 0, pcap: pc}, {store: 1, cache: 1, pcap: pc}} {
+			cfg.nP, cfg.nA = nP, nA
+			if name != "" {
+				out.Comment(fmt.Sprintf("corpus %s store=%d cache=%d pcap=%d", name, cfg.store, cfg.cache, pc))
+			}
+			line := c09RunCase(u, cfg, ops, out)
+			c09Cover(out, cfg, ops, line)
+			out.Case(line)
+			if cfg.store == 0 {
+				memLine = line
+			} else if c09SameAnswers(memLine, line) {
+				out.Cover("caps.memds.same_answers")
+			} else {
+				out.Cover("caps.memds.different_answers")
+			}
+		}
+	}
+	for _, cc := range c09CapCorpus() {
+		for _, pc := range []int64{1, 2} {
+			capRun(cc.name, cc.ops, pc, 2, 5)
+			out.Cover("corpus.cases")
+		}
+	}
+	nCap := 250
+	if thorough {
+		nCap = 1500
+	}
+	for h := 0; h < nCap; h++ {
+		rr := r.Fork()
+		nP, nA := 1+int64(rr.Intn(2)), 3+int64(rr.Intn(3))
+		capRun("", c09CapHistory(rr, nP, nA, out), 1+int64(rr.Intn(3)), nP, nA)
+		out.Cover("histories.caps_directed")
 	}
 
 	// 3. reopen after every prefix (datastore-backed book): the history with a
